@@ -25,6 +25,7 @@ type StressRec struct {
 	Calls  int    `json:"calls"`
 	Wrong  int    `json:"wrong"`  // calls that returned successfully with a foreign / empty token or foreign content
 	Failed int    `json:"failed"` // calls that returned an error
+	GaveUp int    `json:"gaveup"` // calls whose context was cancelled at the moment their response arrived (they may fail: not counted in Failed)
 	First  string `json:"first"`
 }
 
@@ -44,6 +45,10 @@ func stressBurst(burst int, callers int, d time.Duration) StressRec {
 		default:
 		}
 	}
+	// every third call of a caller gives up at the very moment its response arrives: the peer cancels the caller's context
+	// right before it hands the response over (the call may return the response or the context's error - never anything else,
+	// and whatever it leaves behind must not reach the caller's NEXT request)
+	var cancels sync.Map // token -> context.CancelFunc
 	stop := make(chan struct{})
 	var peerWG sync.WaitGroup
 	peerWG.Add(1)
@@ -62,11 +67,14 @@ func stressBurst(burst int, callers int, d time.Duration) StressRec {
 				p, _ := q.Opts.Path()
 				_ = u.InjectNoWait(memnet.Build(message.Acknowledgement, int(codes.Empty), q.MID, nil, nil, nil))
 				mid++
+				if cf, ok := cancels.LoadAndDelete(string(q.Token)); ok {
+					go cf.(context.CancelFunc)()
+				}
 				_ = u.InjectNoWait(memnet.Build(message.Confirmable, int(codes.Content), mid, q.Token, nil, []byte("content-for-"+p)))
 			}
 		}
 	}()
-	var calls, wrong, failed atomic.Int64
+	var calls, wrong, failed, gaveup atomic.Int64
 	var firstMu sync.Mutex
 	deadline := time.Now().Add(d)
 	var wg sync.WaitGroup
@@ -85,11 +93,18 @@ func stressBurst(burst int, callers int, d time.Duration) StressRec {
 					continue
 				}
 				req.SetToken(tok)
+				giveUp := k%3 == 1
+				if giveUp {
+					cancels.Store(string(tok), cancel)
+					gaveup.Add(1)
+				}
 				resp, err := u.CC.Do(req)
 				u.CC.ReleaseMessage(req)
 				calls.Add(1)
 				if err != nil {
-					failed.Add(1)
+					if !giveUp {
+						failed.Add(1)
+					}
 					cancel()
 					continue
 				}
@@ -110,7 +125,7 @@ func stressBurst(burst int, callers int, d time.Duration) StressRec {
 	wg.Wait()
 	close(stop)
 	peerWG.Wait()
-	r.Calls, r.Wrong, r.Failed = int(calls.Load()), int(wrong.Load()), int(failed.Load())
+	r.Calls, r.Wrong, r.Failed, r.GaveUp = int(calls.Load()), int(wrong.Load()), int(failed.Load()), int(gaveup.Load())
 	return r
 }
 
